@@ -72,3 +72,14 @@ CHECKS.update({
    design_ref='DESIGN.md 5 C17', note=NOTE_STD,
    technique='Coq proof (configuration table, tally invariant by induction over rounds, refinement of a round to the reference battle through C02) + per-run correspondence against the built binary'),
 })
+
+CHECKS.update({
+ 'C16': dict(
+   text=('Theorem about the literal model of warrior.go LoadCode / sim.go addressSigned (model/Listing.v): for every core size 1..2^63, both dialects, every non-empty warrior with fields below the core size '
+         '(legal \'88 instructions in \'88 mode) and every entry point inside it, the independently written pMARS-listing reader (spec/LoadPrint.v read_listing: START label, ORG START / END START, signed decimal '
+         'fields, implied modifier in \'88) returns exactly the instructions and entry point; the empty warrior prints nothing; whatever the assembler model (C06) or the load-file reader model (C10) accepts satisfies the '
+         'hypotheses. Includes the decimal print/parse round trip for all integers. Every run prints generated warriors (all forms, fields at 0, 1, M/2, M/2+1, M-1, every entry point) with gmars, compares the text with the '
+         'extracted model and reads gmars\' own text back with the extracted reader.'),
+   design_ref='DESIGN.md 5 C16', note=NOTE_STD,
+   technique='Coq round-trip proof (decimal codec by induction on fuel, tokeniser lemmas over a chunk normal form, induction over the code) + per-run correspondence and extracted reader as monitor'),
+})
